@@ -350,6 +350,80 @@ pub fn run(ctx: &Ctx) -> CheckResult {
         res.absorb(merge_jobs(outs));
     }
 
+    // medium periods, up to three tie-producing deviations at every set of positions (props/devfam.rs):
+    // peak then dip then a non-rising run, double bottoms one period apart, ... on the scalar and the bar path
+    let mut devfam_seqs = 0u64;
+    if !res.out.failed() {
+        use super::devfam::*;
+        let plan: Vec<(usize, usize, &[Dev])> = if th { vec![(9, 3, &DEVS_ALL[..]), (10, 3, &DEVS_ABS[..]), (14, 3, &DEVS_ABS[..]), (17, 3, &DEVS_ABS[..]), (17, 2, &DEVS_ALL[..]), (20, 2, &DEVS_ALL[..]), (33, 2, &DEVS_ALL[..])] } else { vec![(9, 3, &DEVS_ABS[..]), (9, 2, &DEVS_ALL[..]), (17, 2, &DEVS_ALL[..])] };
+        let mut jobs: Vec<(Cfg, Base, usize, usize, &[Dev], bool)> = vec![];
+        for &(n, k, devs) in &plan {
+            for b in BASES {
+                for kind in [Kind::FastStoch, Kind::Er, Kind::Rsi] {
+                    jobs.push((Cfg::p1(kind, n), b, n, k, devs, false));
+                }
+                jobs.push((Cfg::p2(Kind::SlowStoch, n, 3), b, n, k, devs, false));
+                jobs.push((Cfg::p1(Kind::FastStoch, n), b, n, k, devs, true));
+                jobs.push((Cfg::p2(Kind::SlowStoch, n, 3), b, n, k, devs, true));
+                if k <= 2 || n <= 10 {
+                    jobs.push((Cfg::p1(Kind::Mfi, n), b, n, k, devs, true));
+                }
+            }
+        }
+        let outs = par_run(ctx, &jobs, |_, (cfg, b, n, k, devs, bars)| {
+            let mut out = JobOut::default();
+            let len = 3 * n + 3;
+            for first in 0..len {
+                if ctx.out_of_time() {
+                    out.stats.capped.push(format!("time cap in deviation families of {}", cfg.descr()));
+                    break;
+                }
+                for kk in 1..=*k {
+                    let go = for_each_from(first, len, kk, devs, &mut |set| {
+                        let ops = to_ops(&build(*b, *n, len, set), *bars);
+                        out.stats.traces += 1;
+                        out.stats.transitions += len as u64;
+                        let r = std::panic::catch_unwind(std::panic::AssertUnwindSafe(|| {
+                            let mut s = make(cfg);
+                            ops.iter().map(|op| s.apply(op)).collect::<Vec<Out>>()
+                        }));
+                        let outs = match r {
+                            Ok(o) => o,
+                            Err(_) => {
+                                out.fail(Violation::new(PROP, cfg, &ops, "panic").obs("panic".into()).exp("values in range".into()));
+                                return false;
+                            }
+                        };
+                        let mut tr = Tracker::new(cfg);
+                        for (i, op) in ops.iter().enumerate() {
+                            let (dz, c) = tr.step(op);
+                            if i < first {
+                                continue;
+                            }
+                            out.stats.states += 1;
+                            judge(cfg, &ops[..=i], &outs[i], i + 1, dz, c, &mut out);
+                            if out.failed() {
+                                if let Some(v) = out.violations.last_mut() {
+                                    v.detail.push_str(&format!(" {:?} base with deviations {:?}", b, set));
+                                }
+                                return false;
+                            }
+                        }
+                        true
+                    });
+                    if !go {
+                        return out;
+                    }
+                }
+            }
+            out
+        });
+        let m = merge_jobs(outs);
+        devfam_seqs = m.stats.traces;
+        res.absorb(m);
+    }
+    res.extra.insert("deviation_family_sequences".into(), json!(devfam_seqs));
+
     // macro-step regimes: all orderings of 3 segments
     if !res.out.failed() {
         let set = [Regime::Up, Regime::Down, Regime::Tick, Regime::Osc, Regime::Gap, Regime::Flat, Regime::Outlier, Regime::Stair];
